@@ -178,6 +178,14 @@ func StepNow() int {
 // finishing, panicking or being unwound at the end of the execution).
 func WasKilled(t *Thread) bool { return t.killedByChoice }
 
+// CheckDead unwinds the calling thread if it has been killed: a killed
+// process must not perform any further effect, even from deferred calls.
+func CheckDead() {
+	if t := active; t != nil && t.dead {
+		panic(killSentinel{})
+	}
+}
+
 // Dead reports whether the calling thread has been killed (it is unwinding).
 func Dead() bool { t := active; return t != nil && t.dead }
 
